@@ -80,7 +80,7 @@ class Res:
     """Result of one case.  n = evaluations (library executions judged), nt = keys of the
     non-trivial ones, out = outcome keys (what was observed), viol = violations, excl = counts of
     sub-cases that were out of scope / not decidable by the oracle (never judged)."""
-    __slots__ = ('n', 'nt', 'out', 'viol', 'excl', 'states', 'trans')
+    __slots__ = ('n', 'nt', 'out', 'viol', 'excl', 'states', 'trans', 'payload')
 
     def __init__(self):
         self.n = 0
@@ -90,6 +90,7 @@ class Res:
         self.excl = collections.Counter()
         self.states = 0
         self.trans = 0
+        self.payload = []
 
     def ok(self, key=None, outcome=None, nontrivial=True):
         self.n += 1
@@ -124,6 +125,7 @@ class Accum:
         self.transitions = 0
         self.caps = []
         self.extra = {}
+        self.payloads = []
         self.exhaustive = True
 
     def add(self, r, case=None):
@@ -136,6 +138,7 @@ class Accum:
         self.excl.update(r.excl)
         self.states += r.states
         self.transitions += r.trans
+        self.payloads.extend(r.payload)
         for v in r.viol:
             sig = (v['kind'], v['site'], v['trigger'])
             self.viol_counts[sig] += 1
@@ -145,7 +148,8 @@ class Accum:
                 self.viol.append(v)
 
     def merge_chunk(self, ch):
-        (cases, ev, nt, out, viol, vc, excl, st, tr) = ch
+        (cases, ev, nt, out, viol, vc, excl, st, tr, pl) = ch
+        self.payloads.extend(pl)
         self.cases += cases
         self.evaluations += ev
         self.nt |= nt
@@ -205,7 +209,7 @@ def _work(chunk):
                 v['case'] = case
         a.add(r, case)
     return (a.cases, a.evaluations, a.nt, a.outcomes, a.viol, a.viol_counts, a.excl,
-            a.states, a.transitions)
+            a.states, a.transitions, a.payloads)
 
 
 def chunks(it, n):
@@ -237,15 +241,37 @@ def run_pool(check, cases, acc, jobs=16, chunk=None, deadline=None):
                 acc.exhaustive = False
                 break
         return
-    ctx = mp.get_context('fork')
-    with ctx.Pool(jobs, initializer=_init_worker) as pool:
-        for res in pool.imap_unordered(_work, chunks(feed(), chunk)):
-            acc.merge_chunk(res)
-            if deadline and time.time() > deadline:
-                acc.caps.append('time cap hit after %d cases' % acc.cases)
-                acc.exhaustive = False
-                pool.terminate()
-                break
+    pool = get_pool(jobs)
+    for res in pool.imap_unordered(_work, chunks(feed(), chunk)):
+        acc.merge_chunk(res)
+        if deadline and time.time() > deadline:
+            acc.caps.append('time cap hit after %d cases' % acc.cases)
+            acc.exhaustive = False
+            close_pool(terminate=True)
+            break
+
+
+_POOL = None
+
+
+def get_pool(jobs):
+    """One fork pool per check run (forking is slow in this sandbox); created after the check module
+    and torch/fggs are imported so that the workers inherit them."""
+    global _POOL
+    if _POOL is None:
+        _POOL = mp.get_context('fork').Pool(jobs, initializer=_init_worker)
+    return _POOL
+
+
+def close_pool(terminate=False):
+    global _POOL
+    if _POOL is not None:
+        if terminate:
+            _POOL.terminate()
+        else:
+            _POOL.close()
+        _POOL.join()
+        _POOL = None
 
 
 # ----------------------------------------------------------------------------------------------
@@ -311,6 +337,7 @@ def validate_evidence(path):
 
 
 def finish(check, acc, tier, t0, replay_mode=False):
+    close_pool()
     pid = check.PID
     known = load_known(pid)
     describe = getattr(check, 'describe', None)
